@@ -6,3 +6,11 @@ import SparseV.Props.C17
 #print axioms SparseV.C17.spellings_agree_counterexample
 #print axioms SparseV.C17.ufunc_route
 #print axioms SparseV.C17.outer_operand_order
+#print axioms SparseV.C17.multi_out_tables
+#print axioms SparseV.C17.multi_output_route
+#print axioms SparseV.C17.divmod_route
+#print axioms SparseV.C17.divmod_spellings_agree
+#print axioms SparseV.C17.multi_output_rejected
+#print axioms SparseV.C17.out_trial_deterministic
+#print axioms SparseV.C17.out_keeps_format
+#print axioms SparseV.C17.inplace_every_pair
